@@ -161,7 +161,7 @@ KEY_NAMES = [c.__name__ for c in KEY_CLASSES]
 
 
 def budget(tier):
-    return dict(examples=2000, seconds=40) if tier == "quick" else dict(examples=30000, seconds=420)
+    return dict(examples=2000, seconds=40) if tier == "quick" else dict(examples=20000, seconds=400)
 
 
 @st.composite
